@@ -339,6 +339,13 @@ class Universe:
                         return make()
                 tt = [TYPES[t] for t in types]
                 target = ctx.add_resource_factory if via == "m" else ac.add_resource_factory
+                if fkind == "annot":
+                    # no `types=`: they are read from the callback's return annotation (a single class or a Union)
+                    from typing import Union
+
+                    fcb.__annotations__["return"] = Union[tuple(tt)] if len(tt) > 1 else tt[0]  # type: ignore[index]
+                    target(fcb, name, description="d" + flabel)
+                    return ("ok", None)
                 try:
                     target(fcb, name, types=tt if len(tt) > 1 else tt[0], description="d" + flabel)
                 finally:
@@ -366,6 +373,11 @@ class Universe:
                 else:
                     raise AssertionError(api)
                 return ("val", self.lab(r))
+            if kind == "list":
+                # get_resources() through the module-level shortcut (the actor is inside its context: it is the current one)
+                _, tname = op
+                got = ac.get_resources(TYPES[tname])
+                return ("val", tuple(sorted((n, self.lab(v)) for n, v in got.items())))
             if kind == "addtd":
                 _, lbl = op
 
@@ -491,6 +503,8 @@ class Universe:
             m.teardown.append(op[1])
             m.td_raises = True
             return ("ok", None)
+        if kind == "list":
+            return ("val", tuple(sorted((n, c["v"]) for (t, n), c in m.res.items() if t == op[1])))
         if kind == "get":
             _, api, tname, name, optional = op
             if not usable:
@@ -538,7 +552,10 @@ class Universe:
                 asp = "factory"
             self.fail(asp, f"{op} on c{idx}: expected {exp} but it raised {got[1]}")
         elif got != exp:
-            if kind == "get":
+            if kind == "list":
+                gen = "#" in str(got) or "#" in str(exp)
+                self.fail("generated-scope" if gen else "visible", f"get_resources({op[1]}) through the shortcut on c{idx}: expected {exp[1]}, got {got[1]}")
+            elif kind == "get":
                 # which aspect: a generated object with the wrong generation number is a factory matter
                 asp = "generated-scope" if (isinstance(exp[1], str) and "#" in exp[1]) or (isinstance(got[1], str) and "#" in str(got[1])) else "visible"
                 self.fail(asp, f"{op} on c{idx}: expected {exp[1]}, got {got[1]}")
